@@ -84,6 +84,13 @@ def unescape(b):
     return bytes(out)
 
 
+class HMap:
+    __slots__ = ("d",)
+
+    def __init__(self):
+        self.d = {}
+
+
 def fmt_value(v):
     if isinstance(v, bool):
         return b"true" if v else b"false"
@@ -328,6 +335,24 @@ class Evaluator:
             if not args[0].items:
                 raise Undefined("pop from empty array")
             return args[0].items.pop()
+        if name == "map_new":
+            return HMap()
+        if name in ("map_put", "map_get", "map_has", "map_remove", "map_length"):
+            m = args[0]
+            if name == "map_length":
+                return len(m.d)
+            k = args[1]
+            if name == "map_put":
+                m.d[k] = args[2]
+                return None
+            if name == "map_has":
+                return k in m.d
+            if name == "map_remove":
+                m.d.pop(k, None)
+                return None
+            if k not in m.d:
+                raise Undefined("map_get of a missing key")
+            return m.d[k]
         if name == "string_to_int":
             # C strtoll semantics on the generated inputs: optional sign, leading digits, rest ignored, "" -> 0
             import re as _re
